@@ -834,6 +834,18 @@ def gen_c14(rng, tier):
         for kind in ALLK:
             o = s.new(kind, 0)
             objs.append((kind, o, {"live": kind[0] not in "cp" and kind != "mc" and kind != "mp", "keyed": False}))
+        # every heap-using kind first sees a FAILED initialisation on memory that is not zero (a stale ctx / vtable left behind
+        # by the failure path shows in the calls that follow), then the history proper starts from a fresh zeroed object
+        for kind, o, st in objs:
+            if kind in ("c128", "c64", "mc", "p128", "p64", "mp"):
+                s.add("new %s %d %02x" % (kind, o, [0xa5, 0xff, 0x01, 0x5a, 0x80, 0x7f][rep % 6]))
+                s.add("cfg failalloc 1"); s.add("%s init %d" % (kind, o)); s.add("cfg failalloc 0")
+                s0 = S(); valid_setup(rng, s0, kind, o); observe(rng, s0, kind, o, False)
+                for l in s0.lines:
+                    if " which " in l or " psize " in l or " swap " in l: s.add(l)
+                    else: inv_lines.append(s.add(l))
+                s.add("%s cleanup %d" % (kind, o))
+                s.add("new %s %d 00" % (kind, o))
         for step in range(60 if tier == "quick" else 200):
             kind, o, st = objs[rng.randrange(len(objs))]
             r = rng.random()
@@ -849,13 +861,19 @@ def gen_c14(rng, tier):
                     # a failed initialisation, whatever the memory held before: the object must be inert
                     s.add("new %s %d %02x" % (kind, o, rng.choice([0x00, 0xa5, 0xff, 0x01])))
                     s.add("cfg failalloc 1"); s.add("%s init %d" % (kind, o)); s.add("cfg failalloc 0")
+                    # ... and is used at once: every call on it is an invalid call (an init that leaves a stale ctx / vtable behind
+                    # shows here, whatever the later random steps do)
+                    s0 = S(); valid_setup(rng, s0, kind, o); observe(rng, s0, kind, o, False)
+                    for l in s0.lines:
+                        if " which " in l or " psize " in l or " swap " in l: s.add(l)      # no return value to compare
+                        else: inv_lines.append(s.add(l))
                 else:
                     s.add("%s init %d" % (kind, o)); st["live"] = True
             elif r < 0.5 and needs_init and not st["live"]:
                 # every call on a zeroed / cleaned-up object is an invalid call
                 s0 = S(); valid_setup(rng, s0, kind, o); observe(rng, s0, kind, o, False)
                 for l in s0.lines:
-                    if " which " in l or " psize " in l:
+                    if " which " in l or " psize " in l or " swap " in l:      # void / informational: no return value to compare
                         s.add(l)
                     else:
                         inv_lines.append(s.add(l))
